@@ -453,7 +453,7 @@ func Corpus(c *Ctx) []*FileSpec {
 		m := Msg("Mix", F("i32", 1, Opt, "int32"), F("i64", 2, Opt, "int64"), F("u32", 3, Opt, "uint32"), F("s64", 4, Opt, "sint64"),
 			F("str", 5, Opt, "string"), F("f", 6, Opt, "float"), F("d", 7, Opt, "double"), F("b", 8, Opt, "bool"),
 			F("sub", 9, Opt, FullName(pkg, "Sub")), F("subs", 10, Rep, FullName(pkg, "Sub")), F("nums", 11, Rep, "int64"), F("names", 12, Rep, "string"),
-			F("fx", 13, Opt, "fixed64"), F("color", 14, Opt, "enum:"+FullName(pkg, "Color")), F("u64s", 16, Rep, "uint64"))
+			F("fx", 13, Opt, "fixed64"), F("color", 14, Opt, "enum:"+FullName(pkg, "Color")), F("raw", 15, Opt, "bytes"), F("u64s", 16, Rep, "uint64"), F("blobs", 19, Rep, "bytes"))
 		MapField(m, FullName(pkg, "Mix"), "attrs", 17, "string", "string")
 		MapField(m, FullName(pkg, "Mix"), "counts", 18, "int32", "int64")
 		Oneof(m, "pick", F("p_int", 20, Opt, "int32"), F("p_str", 21, Opt, "string"), F("p_sub", 22, Opt, FullName(pkg, "Sub")))
